@@ -444,14 +444,29 @@ def kf_else_branches(w: Dict[str, Any]) -> bool:
                 return True
             i = parent[i - 1]
         return False
+    # classes pydoctor keeps although Python rebinds their name in such a block: their namespaces exist for pydoctor only
+    survivors = {d["got"]["node"] for d in w["diff"] if d.get("expected") and d.get("got") and not d.get("what")
+                 and in_else(d["expected"].get("node")) and d["got"].get("node") and not in_else(d["got"]["node"])
+                 and kind[d["got"]["node"] - 1] in ("class", "exc")}
+
+    def under(s0: int) -> bool:
+        while s0:
+            if s0 in survivors:
+                return True
+            s0 = parent[s0 - 1]
+        return False
     for d in w["diff"]:
         exp, got = d.get("expected"), d.get("got")
         if d.get("what") == "attribute docstring":
+            if exp and exp.get("adoc") and in_else(exp["adoc"]) and not (got or {}).get("adoc"):
+                continue                      # the documenting string stands in such a block: not walked either
             return False
         if d["scope"] and in_else(d["scope"]):
             if got is None:
                 continue                      # a namespace that only exists for Python: the class stands in such a block
             return False
+        if exp is None and d["scope"] and under(d["scope"]):
+            continue                          # a namespace that only exists for pydoctor: the class was replaced from such a block
         if exp is None or not in_else(exp.get("node")):
             return False                      # Python's binding does not come from such a block: not this finding
         if got is not None and (got.get("node") is None or in_else(got["node"])):
